@@ -74,7 +74,7 @@ pub proof fn lemma_tb_history(w0: World, steps: Seq<TbOp>)
 {
     if steps.len() == 0 {
         assert(bcount(w0) == 0);
-        assert forall|b: u32| (#[trigger] bucket(w0, b)).len() == 0 by { assert(pget(w0, k_bkt(b)).is_none()); }
+        assert forall|b: u32| (#[trigger] bkt(w0, b)).len() == 0 by { assert(pget(w0, k_bkt(b)).is_none()); }
         assert forall|x: Address| !(#[trigger] scan_bound(w0, x)) by {}
     } else {
         let pre = steps.drop_last();
